@@ -152,8 +152,70 @@ def check_layout_predicates(res, fi) -> int:
   return n
 
 
+# put_data entries that override the generic copy-by-name loop for a field that MjData has under the same name and
+# that today's tree fills from that very attribute (confirmed by reading): the transferred value must still read it
+PUT_DATA_SAME_NAME = ("body_awake", "solver_niter", "tree_asleep")
+
+
+def check_put_data_provenance(sm, res) -> int:
+  """R-LAYOUT.15: put_data copies most Data fields from the same-named MjData attribute in one generic loop. A field given
+  an explicit initialiser in put_data although MjData has it under the same name must still be computed from that
+  attribute (`mjd.<name>`, directly or through single-assignment locals): re-deriving it from other fields changes what
+  get_data_into(put_data(mjd)) returns whenever MuJoCo's own value is not that function of the other fields."""
+  fn = sm.func("io.put_data").node
+  cnt, env = {}, {}
+  for st in ast.walk(fn):
+    if isinstance(st, ast.Assign) and len(st.targets) == 1 and isinstance(st.targets[0], ast.Name):
+      k = st.targets[0].id
+      cnt[k] = cnt.get(k, 0) + 1
+      env[k] = st.value
+  env = {k: v for k, v in env.items() if cnt[k] == 1}
+
+  def mjd_attrs(e, depth=0):
+    out = set()
+    for n in ast.walk(e):
+      if isinstance(n, ast.Attribute) and isinstance(n.value, ast.Name) and n.value.id == "mjd":
+        out.add(n.attr)
+      if isinstance(n, ast.Call) and unparse(n.func) == "getattr" and len(n.args) >= 2 and unparse(n.args[0]) == "mjd" and isinstance(n.args[1], ast.Constant):
+        out.add(n.args[1].value)
+      if isinstance(n, ast.Name) and n.id in env and depth < 4:
+        out |= mjd_attrs(env[n.id], depth + 1)
+    return out
+
+  found = {}
+  for n in ast.walk(fn):
+    if isinstance(n, ast.Dict):
+      for k, v in zip(n.keys, n.values):
+        if isinstance(k, ast.Constant) and isinstance(k.value, str) and v is not None:
+          found.setdefault(k.value, []).append(v)
+    if isinstance(n, ast.Call):
+      for kw in n.keywords:
+        if kw.arg:
+          found.setdefault(kw.arg, []).append(kw.value)
+    if isinstance(n, ast.Assign) and len(n.targets) == 1 and isinstance(n.targets[0], ast.Attribute) and isinstance(n.targets[0].value, ast.Name) and n.targets[0].value.id == "d":
+      found.setdefault(n.targets[0].attr, []).append(n.value)
+  k = 0
+  for name in PUT_DATA_SAME_NAME:
+    if name not in found:
+      continue  # no explicit initialiser any more: the generic copy-by-name loop applies
+    k += 1
+    vs = [v for v in found[name] if not (isinstance(v, ast.Constant) and v.value is None)]  # `None` = placeholder filled later
+    if vs and any(name in mjd_attrs(v) for v in vs):
+      res.ob(True, f"put_data|{name}|from-mjd")
+      continue
+    for v in vs[:1]:
+      res.ob(
+        False,
+        f"put_data|{name}|from-mjd",
+        Finding("R-LAYOUT.15", f"io.put_data|Data.{name}|not-read-from-mjd", f"put_data initialises Data.{name} with `{unparse(v)[:90]}`, which no longer reads mjd.{name}: the transferred value is re-derived instead of copied, so get_data_into(put_data(mjd)).{name} can differ from mjd.{name}", f"mujoco_warp/_src/io.py:{v.lineno}"),
+        sample={"field": name},
+      )
+  return k
+
+
 def run(db, res, tier):
   sm = db.sm
+  check_put_data_provenance(sm, res)
   pm = sm.func("io.put_model")
   src = unparse(pm.node)
   # (B) enum membership validation
